@@ -753,6 +753,9 @@ def run(ctx):
     ctx.rule('C03.HEIGHTS', lambda: rule_heights(ctx), 2)
     ctx.rule('C03.TOUCHED', lambda: rule_touched(ctx), 4)
     ctx.rule('C03.MEMO', lambda: rule_memo(ctx), 12)
+    from . import c02 as _c02, c10 as _c10
+    ctx.rule('C03.BISECT', lambda: _c02.rule_bisect(ctx), 2)
+    ctx.rule('C03.SIGNAL', lambda: _c10.rule_signal(ctx, 'C03.SIGNAL'), 5)
     # headers are an observable of the index: the header merkle cache must not keep orphaned block hashes
     from . import c11
     ctx.rule('C03.HEADERMC', lambda: c11.rule_truncate(ctx, 'C03.HEADERMC'), 2)
@@ -831,6 +834,16 @@ def rule_memo(ctx, rule='C03.MEMO'):
         for g in ctx.repo.funcs.values():
             if g.key in back:
                 back_w |= writes(g)
+        # memoising decorators keep results across a backup just like a hand-written memo
+        for name, g in sorted(methods.items()):
+            decos = [norm(d_) for d_ in g.node.decorator_list]
+            memo = [d_ for d_ in decos if any(k in d_ for k in ('lru_cache', 'functools.cache', 'cachedproperty', 'cached_property'))
+                    or d_ in ('cache',)]
+            if memo:
+                n += 1
+                ctx.bad(rule, ctx.key(g, None, 'memoised method'),
+                        f'{cls}.{name} is memoised by @{memo[0]}: nothing drops the memo when blocks are backed out, and its keys '
+                        '(tx numbers, heights) are re-used by the replacing blocks', loc=ctx.loc(g, g.node))
         for name, g in sorted(methods.items()):
             fam = [g] + list(g.nested.values())
             if g.key in trans:
